@@ -20,7 +20,8 @@ from vlib import common
 common.use_repo_sources()
 
 RULE = ("screens of single-sample plates: 1-6 samples x 0-6 plates (plate ids interleaved across samples, some plates observed), "
-        "k 1-4; histories from the empty batch along random and adversarial orders (switch sample whenever allowed / starve the "
+        "k 1-4; 1-3 rounds per screen (a finished batch is marked observed with the real Screen.set_observed, the next batch starts empty on the "
+        "same Screen object), in half of the histories ONE policy object serves every call of every round; histories from the empty batch along random and adversarial orders (switch sample whenever allowed / starve the "
         "smallest sample / lowest id), every pick made by the real select_next_plate with scores that make the intended plate the "
         "best eligible one while every non-eligible plate scores lower; exhaustive part: every reachable batch state of every "
         "screen with <= S samples x <= P plates (quick S=3,P=3,total<=6; thorough S=4,P=4,total<=8), k 1-3; direct policy calls on "
@@ -105,11 +106,16 @@ def make_scores(desc, eligible, target):
     return h
 
 
-def call_select(screen, desc, k, batch, eligible_hint=(), target=None):
-    """real select_next_plate; returns (eligible ids | None, error class | None, returned plate id | None)"""
+def call_select(screen, desc, k, batch, eligible_hint=(), target=None, shared=None):
+    """real select_next_plate; returns (eligible ids | None, error class | None, returned plate id | None).
+    `shared` = (policy, log): ONE policy object used for every call of a history (and of its later rounds); default a new one per call."""
     from batchie.scoring.main import select_next_plate
-    log = []
-    pol = make_policy(k, log)
+    if shared is not None:
+        pol, log = shared
+        del log[:]
+    else:
+        log = []
+        pol = make_policy(k, log)
     scores = make_scores(desc, set(eligible_hint), target)
     try:
         r = select_next_plate(scores=scores, screen=screen, policy=pol, batch_plate_ids=list(batch), rng=np.random.default_rng(0))
@@ -223,41 +229,74 @@ def pick(rng, strat, desc, batch, el):
     return rng.choice(el)
 
 
-def run_history(ctx, res, plates, k, strat, rng, lines, expect, meta, max_len=40, picks=None):
-    """drive the real select_next_plate from the empty batch; returns number of states visited"""
+def run_history(ctx, res, plates, k, strat, rng, lines, expect, meta, max_len=40, picks=None, rounds=1, reuse=False, prior=None):
+    """drive the real select_next_plate from the empty batch; returns number of states visited.
+    rounds > 1: when a batch is finished its plates are marked observed with the real Screen.set_observed and the next batch starts
+    from the empty batch on the SAME Screen object.  reuse: one policy object serves every call of every round.
+    Replay: `prior` = the batches of the earlier rounds (followed pick by pick), `picks` = the picks of the last round."""
     screen = build_screen(plates)
-    desc = describe(screen)
-    batch = []
+    shared = None
+    if reuse:
+        log = []
+        shared = (make_policy(k, log), log)
     states = 0
-    n_samples = len(set(s for d in desc for s in d[1]))
-    case = {"kind": "history", "plates": plates, "k": k, "picks": []}
-    while len(batch) <= max_len:
-        el, err, ret0 = call_select(screen, desc, k, batch)
-        states += 1
-        res.evaluations += 1
-        c = dict(case, picks=list(batch))
-        ok = oracle_state(res, c, desc, k, batch, el, err, ret0)
-        if lines is not None:
-            lines.append("select %d %s %s" % (k, plates_tok(desc), ids_tok(batch)))
-            expect.append("err:%s" % err if err else ids_tok(el))
-            meta.append(c)
-        if batch and n_samples >= 2 and k >= 2:
-            res.nontrivial.add(("state", k, tuple(sorted(batch)), plates_tok(desc)))
-        if not ok or err or not el:
-            break
-        if picks is not None:
-            if len(batch) >= len(picks) or picks[len(batch)] not in el:
+    done = []                     # batches of the finished rounds
+    forced_rounds = None
+    if picks is not None:
+        forced_rounds = [list(b) for b in (prior or [])] + [list(picks)]
+        rounds = len(forced_rounds)
+    for rnd in range(rounds):
+        desc = describe(screen)   # observed flags change between rounds
+        n_samples = len(set(s for d in desc for s in d[1]))
+        forced = forced_rounds[rnd] if forced_rounds is not None else None
+        batch = []
+        case = {"kind": "history", "plates": plates, "k": k, "picks": [], "prior": [list(b) for b in done], "reuse": reuse}
+        stop = False
+        while len(batch) <= max_len:
+            el, err, ret0 = call_select(screen, desc, k, batch, shared=shared)
+            states += 1
+            res.evaluations += 1
+            c = dict(case, picks=list(batch))
+            ok = oracle_state(res, c, desc, k, batch, el, err, ret0)
+            if lines is not None:
+                lines.append("select %d %s %s" % (k, plates_tok(desc), ids_tok(batch)))
+                expect.append("err:%s" % err if err else ids_tok(el))
+                meta.append(c)
+            if batch and n_samples >= 2 and k >= 2:
+                res.nontrivial.add(("state", k, tuple(sorted(batch)), plates_tok(desc)))
+            if not ok or err:
+                stop = True
                 break
-            target = picks[len(batch)]
-        else:
-            target = pick(rng, strat, desc, batch, el)
-        el2, err2, ret = call_select(screen, desc, k, batch, eligible_hint=el, target=target)
-        if ret != target:
-            res.fail("an eligible plate with the best score among the eligible ones was not selected", dict(c, target=target),
-                     ret, target, signature="C16:returned")
+            if not el:
+                break
+            if forced is not None:
+                if len(batch) >= len(forced):
+                    break
+                if forced[len(batch)] not in el:
+                    stop = True
+                    break
+                target = forced[len(batch)]
+            else:
+                target = pick(rng, strat, desc, batch, el)
+            el2, err2, ret = call_select(screen, desc, k, batch, eligible_hint=el, target=target, shared=shared)
+            if ret != target:
+                res.fail("an eligible plate with the best score among the eligible ones was not selected", dict(c, target=target),
+                         ret, target, signature="C16:returned")
+                stop = True
+                break
+            batch.append(target)
+            # a batch is usually closed after a whole number of samples (m*k plates); sometimes it simply runs until nothing is eligible
+            if forced is None and rounds > 1 and rnd + 1 < rounds and len(batch) % k == 0 and rng.random() < 0.35:
+                break
+        res.count("history.len.%s" % ("0" if not batch else "1-3" if len(batch) <= 3 else "4-9" if len(batch) <= 9 else "10+"))
+        if rnd > 0:
+            res.count("history.later_round")
+        if stop or rnd + 1 >= rounds:
             break
-        batch.append(target)
-    res.count("history.len.%s" % ("0" if not batch else "1-3" if len(batch) <= 3 else "4-9" if len(batch) <= 9 else "10+"))
+        if batch:
+            sel = np.isin(screen.plate_ids, np.array(batch, dtype=int))
+            screen.set_observed(sel, np.full(int(sel.sum()), 0.5))
+        done.append(list(batch))
     return states
 
 
@@ -268,6 +307,10 @@ def explore_all(ctx, res, plates, k, lines, expect, meta, rng, line_rate):
     n_samples = len(set(s for d in desc for s in d[1]))
     seen = set()
     stack = [()]
+    shared = None
+    if rng.random() < 0.5:       # one policy object for the whole exploration (states are visited in a non-monotone order)
+        plog = []
+        shared = (make_policy(k, plog), plog)
     case0 = {"kind": "history", "plates": plates, "k": k}
     while stack:
         batch = stack.pop()
@@ -275,7 +318,7 @@ def explore_all(ctx, res, plates, k, lines, expect, meta, rng, line_rate):
         if key in seen:
             continue
         seen.add(key)
-        el, err, ret0 = call_select(screen, desc, k, list(batch))
+        el, err, ret0 = call_select(screen, desc, k, list(batch), shared=shared)
         res.evaluations += 1
         c = dict(case0, picks=list(batch))
         ok = oracle_state(res, c, desc, k, list(batch), el, err, ret0)
@@ -289,7 +332,7 @@ def explore_all(ctx, res, plates, k, lines, expect, meta, rng, line_rate):
             continue
         # spot-check that the prescribed-score pick is honoured, then branch on EVERY eligible plate
         t = rng.choice(el)
-        _, _, ret = call_select(screen, desc, k, list(batch), eligible_hint=el, target=t)
+        _, _, ret = call_select(screen, desc, k, list(batch), eligible_hint=el, target=t, shared=shared)
         if ret != t:
             res.fail("an eligible plate with the best score among the eligible ones was not selected", dict(c, target=t), ret, t, signature="C16:returned")
             continue
@@ -330,7 +373,11 @@ def run(ctx, res):
         strat = STRATEGIES[t % len(STRATEGIES)]
         res.count("history.strategy.%s" % strat)
         res.count("history.k%d" % k)
-        run_history(ctx, res, plates, k, strat, rng, lines if t < ctx.scale(200, 600, 300) else None, expect, meta)
+        rounds = rng.choice([1, 1, 2, 3])
+        reuse = rng.random() < 0.5
+        res.count("history.rounds%d" % rounds)
+        res.count("history.policy_object_%s" % ("reused" if reuse else "fresh_per_call"))
+        run_history(ctx, res, plates, k, strat, rng, lines if t < ctx.scale(200, 600, 300) else None, expect, meta, rounds=rounds, reuse=reuse)
         res.traces_validated += 1
         if t < 2:
             res.sample({"kind": "history", "k": k, "counts": counts, "strategy": strat})
@@ -423,6 +470,7 @@ def _quiet():
 def replay(ctx, case, res):
     _quiet()
     if case.get("kind") == "history":
-        run_history(ctx, res, case["plates"], case["k"], "random", ctx.subrng("replay"), None, None, None, picks=case.get("picks", []))
+        run_history(ctx, res, case["plates"], case["k"], "random", ctx.subrng("replay"), None, None, None, picks=case.get("picks", []),
+                    prior=case.get("prior"), reuse=bool(case.get("reuse")))
     else:
         run(ctx, res)
